@@ -300,6 +300,7 @@ tpt_msg_send(tpt_p dst, tpt_p src, uint32_t flags,
 			src = tpt_get_current();
 		}
 		if (src == dst) { /* Self. */
+			LIBLCB_VERIF_POINT("send.direct", dst, udata, 1);
 			msg_cb(dst, udata);
 			return (0);
 		}
@@ -308,6 +309,7 @@ tpt_msg_send(tpt_p dst, tpt_p src, uint32_t flags,
 		LIBLCB_VERIF_POINT("send.notrunning", dst, udata, flags);
 		if (0 == (TP_MSG_F_FORCE & flags))
 			return (EHOSTDOWN);
+		LIBLCB_VERIF_POINT("send.direct", dst, udata, 2);
 		msg_cb(dst, udata);
 		return (0);
 	}
@@ -322,6 +324,7 @@ tpt_msg_send(tpt_p dst, tpt_p src, uint32_t flags,
 	/* Error. */
 	LIBLCB_VERIF_POINT("send.wfail", dst, udata, errno);
 	if (0 != (TP_MSG_F_FAIL_DIRECT & flags)) {
+		LIBLCB_VERIF_POINT("send.direct", dst, udata, 3);
 		msg_cb(dst, udata);
 		return (0);
 	}
